@@ -403,6 +403,12 @@ def corruptions(gen, cid, o):
         x = dict(o)
         del x[s["name"]]
         out.append(("drop-required", s["name"], x))
+    for s in required:
+        # a required property given explicitly with a value the constructor discards
+        for v in (None, []):
+            x = dict(o)
+            x[s["name"]] = v
+            out.append(("required-discarded", s["name"], x))
     if present:
         s = r.choice(present)
         x = dict(o)
@@ -597,6 +603,17 @@ def coconstraint_corruptions(gen, cid, o):
         x = dict(tl)
         x["created"] = "2017-01-20T00:00:01.000Z"
         out.append(("co-constraint", "tlp-wrong-created", x))
+        colours = ["white", "green", "amber", "red"]
+        x = copy.deepcopy(tl)
+        x["definition"] = {"tlp": r.choice([k for k in colours if k != tl["definition"]["tlp"]])}
+        out.append(("co-constraint", "tlp-other-colour-under-standard-id", x))
+        x = copy.deepcopy(tl)
+        x["definition"] = {"tlp": r.choice(["gray", "clear", "WHITE", ""])}
+        out.append(("co-constraint", "tlp-unknown-colour", x))
+        x = copy.deepcopy(tl)
+        x["definition"] = {"tlp": "purple"}
+        x["id"] = "marking-definition--" + gen.uuid()
+        out.append(("co-constraint", "tlp-unknown-colour-fresh-id", x))
         if c["ver"] == "2.1":
             x = {k: v for k, v in o.items() if k not in ("definition", "extensions")}
             out.append(("co-constraint", "definition_type-without-definition", x))
@@ -643,4 +660,28 @@ def py_value_cases(gen, cid, o):
             x[name] = {"__py__": r.choice(["datetime", "datetime-naive", "date"]), "items": [2016, 5, 17, 1, 2, 3, 123456]}
             out.append(("py-datetime", name, x))
     r.shuffle(out)
+    return out
+
+
+# ------------------------------------------------------- sequences (state kept between calls)
+
+def uuid_reuse_sequences(gen, n):
+    """Pairs of calls that use the SAME RFC 4122 non-v4 UUID text under the two specification versions, in
+    both orders (identifier and reference positions): a 2.0 object may not carry it, a 2.1 object may.  Each
+    sequence is a list of (class id, object); the calls of one sequence run in one process, in order."""
+    r = gen.rng
+    out = []
+    t0 = "2016-01-01T00:00:00.000Z"
+    for i in range(n):
+        u = gen.uuid(r.choice([5, 1, 3]))
+        id20 = {"type": "identity", "id": "identity--" + u, "created": t0, "modified": t0, "name": "n", "identity_class": "individual"}
+        id21 = {"type": "identity", "spec_version": "2.1", "id": "identity--" + u, "created": t0, "modified": t0, "name": "n"}
+        ref20 = {"type": "identity", "id": "identity--" + gen.uuid(), "created": t0, "modified": t0, "name": "n",
+                 "identity_class": "individual", "created_by_ref": "identity--" + u}
+        ref21 = {"type": "identity", "spec_version": "2.1", "id": "identity--" + gen.uuid(), "created": t0, "modified": t0,
+                 "name": "n", "created_by_ref": "identity--" + u}
+        sco21 = {"type": "ipv4-addr", "spec_version": "2.1", "id": "ipv4-addr--" + u, "value": "198.51.100.%d" % (i % 250)}
+        a, b = r.choice([(id20, id21), (ref20, ref21), (id20, ref21), (ref20, id21), (id20, sco21), (ref20, sco21)])
+        pair = [("2.0/Identity", a), ("2.1/IPv4Address" if b is sco21 else "2.1/Identity", b)]
+        out.append(pair if i % 2 == 0 else pair[::-1])
     return out
